@@ -22,6 +22,7 @@ func init() {
 	verifRegister("VerifC03_LongFrames", VerifC03_LongFrames)
 	verifRegister("VerifC12_Corrupted", VerifC12_Corrupted)
 	verifRegister("VerifC12_CorruptedLong", VerifC12_CorruptedLong)
+	verifRegister("VerifC02_H5_CorruptedSegments", VerifC02_H5_CorruptedSegments)
 }
 
 type c03Segment struct {
@@ -243,4 +244,40 @@ func VerifC12_CorruptedLong() {
 	got := c03Run(stream)
 	verifWitness("handled")
 	c03Check("corrupted-", got, want)
+}
+
+// C02 on longer, structured streams: C12's family (segments with one victim
+// frame corrupted by a symbolic difference, which may put 0xD3 bytes anywhere
+// inside it) -- whatever the handler makes of the victim, the delivered bytes
+// must still concatenate to the input and no message may be empty.
+func VerifC02_H5_CorruptedSegments() {
+	verifOwnDeadlocks()
+	stream, want, frames := c03BuildStream(3, false)
+	if len(frames) == 0 {
+		verifAssume(false)
+	}
+	v := frames[verifParam("victim", 0, len(frames)-1)]
+	bad := c12Corrupt(want[v].bytes, "diff")
+	var stream2 []byte
+	for i := range want {
+		if i == v {
+			stream2 = append(stream2, bad...)
+		} else {
+			stream2 = append(stream2, want[i].bytes...)
+		}
+	}
+	_ = stream
+	verifWitness("reached")
+	got := c03Run(stream2)
+	verifWitness("handled")
+	var cat []byte
+	empty := false
+	for i := range got {
+		if len(got[i].RawData) == 0 {
+			empty = true
+		}
+		cat = append(cat, got[i].RawData...)
+	}
+	verifAssert("no-empty-message", !empty)
+	verifAssert("concatenation-equals-input", verifBytesEq(cat, stream2))
 }
